@@ -1,5 +1,107 @@
-(* placeholder while the harness is being brought up; replaced by the real statements *)
-From AV Require Import Base.Prelude Model.Close.
-Theorem C09_placeholder : run [] init = init.
-Proof. reflexivity. Qed.
-Print Assumptions C09_placeholder.
+(* C09 - Everything terminates: no hung waiter, one orderly close.
+   Statements only; proofs in Proofs/CloseProofs.v (channel handlers), Proofs/CloseConnProofs.v
+   (connection level) and Proofs/ClosePairProofs.v (the two-sided close handshake).
+   Model/Close.v is ONE endpoint (client or server role) of a connection with any number of session
+   channels; `run ops init` executes an arbitrary list of ops from a fresh connection.  An op is an
+   application call (open / eof / close / abort / write / pause / resume / read / drain /
+   wait_closed / global request / connection close, abort, wait_closed), a packet from the peer
+   (OPEN, OPEN_CONFIRMATION, OPEN_FAILURE, DATA, EOF, CLOSE, WINDOW_ADJUST, CHANNEL_SUCCESS/FAILURE,
+   REQUEST_SUCCESS/FAILURE, DISCONNECT, a request, a malformed packet, IGNORE), the transport reporting
+   the loss of the connection (Cut), the event loop running the next ready callback (RunReady) or all of
+   them (Settle).  All theorems quantify over EVERY op list, i.e. every interleaving of both sides'
+   actions, every point at which the connection is cut or a DISCONNECT arrives, every relative timing
+   of replies, and every schedule of the ready queue. *)
+From AV Require Import Base.Prelude Model.Close Proofs.CloseProofs Proofs.CloseConnProofs.
+Local Open Scope nat_scope.
+
+(* Whenever the connection ends - the transport is cut, a DISCONNECT or an invalid packet arrives, the
+   application closes or aborts the connection - and the ready callbacks have then run, NOTHING is left
+   waiting: the ready queue is empty, the connection is closed (conn.wait_closed() callers released,
+   connect() released, global-request waiters released), and on every channel create_session() has
+   returned or raised (the coroutine is neither blocked on its open / request waiter nor waiting to be
+   woken), no reader is blocked in read(), no writer in drain(), nobody in wait_closed(). *)
+Theorem C09_resolved : forall ops o, ends o = true -> all_resolved (run (ops ++ [o; Settle]) init).
+Proof. exact resolved. Qed.
+Print Assumptions C09_resolved.
+
+(* The same from any state in which the transport has already been given up (covers a loss that is
+   followed by further application calls and late packets before the loop gets to run). *)
+Theorem C09_resolved_after_loss : forall ops,
+  transport (run ops init) = false -> all_resolved (step (run ops init) Settle).
+Proof. exact resolved_after_loss. Qed.
+Print Assumptions C09_resolved_after_loss.
+
+(* No callback chain runs for ever: from every reachable state, letting the loop run (Settle) empties
+   the ready queue within pot(s) callback runs - pot is an explicit potential that every run decreases. *)
+Theorem C09_ready_queue_empties : forall ops, ready (step (run ops init) Settle) = [].
+Proof. intros ops. apply settle_empty. Qed.
+Print Assumptions C09_ready_queue_empties.
+Theorem C09_each_callback_decreases_potential : forall s, ready s <> [] -> pot (run_ready s) < pot s.
+Proof. exact pot_run_ready. Qed.
+Print Assumptions C09_each_callback_decreases_potential.
+
+(* Callback order.  In every reachable state every session's callback log is legal (automaton lstep:
+   connection_made first, then session_started / data_received, at most one eof_received after which no
+   data, nothing after connection_lost, at most one connection_lost; or a session object that was never
+   attached and is released with connection_lost(None) alone).  Once the connection is closed every
+   session that was told anything has had connection_lost as its LAST callback, exactly once. *)
+Theorem C09_once_last : forall ops,
+  Forall (fun ch => legal_log (clog ch)) (chans (run ops init)) /\
+  (closed (run ops init) = true -> Forall (fun ch => finished_log (clog ch)) (chans (run ops init))).
+Proof. intros ops. split; [apply logs_legal | apply logs_finished]. Qed.
+Print Assumptions C09_once_last.
+
+(* what the automaton states mean in terms of the log itself *)
+Theorem C09_log_shape : forall l,
+  (lstate l = L0 -> l = []) /\
+  ((lstate l = LMade \/ lstate l = LEofd) -> count_lost l = 0 /\ hd_error l = Some CbMade) /\
+  (lstate l = LLost -> count_lost l = 1 /\ exists pre e, l = pre ++ [CbLost e] /\ count_lost pre = 0 /\
+                         (pre = [] \/ hd_error pre = Some CbMade)).
+Proof. exact lstate_facts. Qed.
+Print Assumptions C09_log_shape.
+
+(* The connection owner: connection_made, optionally auth_completed, then connection_lost; the owner
+   has been told connection_lost exactly when the connection is closed, never twice, nothing after. *)
+Theorem C09_owner_once_last : forall ops,
+  let s := run ops init in
+  ostate (olog s) <> OBad /\ (closed s = true <-> ostate (olog s) = OL).
+Proof. exact owner_log. Qed.
+Print Assumptions C09_owner_once_last.
+
+(* No channel stays registered on a closed connection (and none can be registered later: the theorem
+   holds after every further op). *)
+Theorem C09_unregistered : forall ops,
+  closed (run ops init) = true -> Forall (fun ch => reg ch = false) (chans (run ops init)).
+Proof. exact unregistered. Qed.
+Print Assumptions C09_unregistered.
+
+(* The code before /repo cd5d87d (SSHChannel._open did not re-check the connection after the open waiter
+   was resolved) violates C09_once_last: the application aborts the connection, the one packet that
+   data_received() still processes is the OPEN_CONFIRMATION, the connection cleanup runs before create()
+   resumes - the session is told connection_made and never connection_lost. *)
+Theorem C09_once_last_old_refuted : exists ops,
+  closed (run_old ops init) = true /\ ready (run_old ops init) = [] /\
+  exists ch, In ch (chans (run_old ops init)) /\ lstate (clog ch) = LMade.
+Proof.
+  exists [PAuthOk; LOpen false true; Settle; PIgnore; LConnAbort; PConfirm 0; Settle].
+  vm_compute. repeat split; auto. eexists. split; [left; reflexivity | reflexivity].
+Qed.
+Print Assumptions C09_once_last_old_refuted.
+
+(* non-vacuity: an orderly session; a cut with an open waiter, a reader and a wait_closed() pending *)
+Example C09_example_orderly :
+  let s := run [PAuthOk; LOpen false true; Settle; PConfirm 0; Settle; PReply 0 true; Settle; LWaitClosed 0;
+                LClose 0; PClose 0; Settle] init in
+  map clog (chans s) = [[CbMade; CbStarted; CbLost false]] /\ map reg (chans s) = [false] /\
+  done s = [(WConnect, 0, WOk); (WCreate, 0, WOk); (WClosed, 0, WOk)].
+Proof. vm_compute. auto. Qed.
+Example C09_example_cut :
+  let s := run [PAuthOk; LOpen false true; LOpen true true; Settle; PConfirm 0; Settle; PReply 0 true; Settle;
+                LRead 0; LWaitClosed 0; LGlobal; LConnWaitClosed; Cut; Settle] init in
+  all_resolved s /\ map clog (chans s) = [[CbMade; CbStarted; CbLost true]; []] /\
+  olog s = [OMade; OAuth; OLost true].
+Proof.
+  vm_compute. split; [|auto]. repeat (split; [reflexivity|]).
+  apply Forall_cons; [split; [right; eexists; reflexivity | auto]|].
+  apply Forall_cons; [split; [right; eexists; reflexivity | auto]|]. apply Forall_nil.
+Qed.
